@@ -29,6 +29,9 @@ type Source struct {
 	// GzSplit, when 0 < GzSplit < len(Raw), makes the gzip file a concatenation of two members
 	// (gzip(Raw[:GzSplit]) ++ gzip(Raw[GzSplit:])), which decodes to Raw (RFC 1952, `cat a.gz b.gz`).
 	GzSplit int
+	// Reader, when set, replaces the ScriptedReader of the stream modes ("reader", "hook"): the caller
+	// scripts the Read results itself (e.g. data returned together with an error, PipelineRead.tla).
+	Reader io.ReadCloser
 }
 
 // Kind names the way the source is opened: "fifo", "gz", "plain" (regular file) or "stream" (no name).
